@@ -25,17 +25,25 @@ type TrustStore struct {
 	mu    sync.Mutex
 	Certs map[string][]*x509.Certificate
 	Errs  map[string]error
+	Empty map[string]bool // stores that load successfully with zero certificates
 	Calls []string // "type:name" in call order
 }
 
 // NewTrustStore returns an empty scripted trust store.
 func NewTrustStore() *TrustStore {
-	return &TrustStore{Certs: map[string][]*x509.Certificate{}, Errs: map[string]error{}}
+	return &TrustStore{Certs: map[string][]*x509.Certificate{}, Errs: map[string]error{}, Empty: map[string]bool{}}
 }
 
 // Put sets the content of a store.
 func (m *TrustStore) Put(typ, name string, certs ...*x509.Certificate) *TrustStore {
 	m.Certs[typ+":"+name] = append([]*x509.Certificate{}, certs...)
+	return m
+}
+
+// PutEmpty makes a store load successfully with no certificates (the real directory store
+// never does this; it exercises the verifier's own emptiness guard).
+func (m *TrustStore) PutEmpty(typ, name string) *TrustStore {
+	m.Empty[typ+":"+name] = true
 	return m
 }
 
@@ -54,6 +62,9 @@ func (m *TrustStore) GetCertificates(ctx context.Context, t truststore.Type, nam
 	m.Calls = append(m.Calls, k)
 	if e := m.Errs[k]; e != nil {
 		return nil, e
+	}
+	if m.Empty[k] {
+		return []*x509.Certificate{}, nil
 	}
 	c, ok := m.Certs[k]
 	if !ok || len(c) == 0 {
